@@ -1,14 +1,15 @@
 #!/usr/bin/env python3
-"""Regenerates MANIFEST.json from tools/manifest_props.json (claimed checks) and properties.jsonl."""
-import json, os
+"""Regenerates MANIFEST.json from `bin/verifcheck --list` (registered checks) and properties.jsonl."""
+import json, os, subprocess
 here = os.path.dirname(os.path.dirname(os.path.abspath(__file__)))
 props = [json.loads(l) for l in open(os.path.join(here, 'properties.jsonl'))]
-claimed = json.load(open(os.path.join(here, 'tools', 'manifest_props.json')))
+reg = {r['ID']: r for r in json.loads(subprocess.check_output([os.path.join(here, 'bin', 'verifcheck'), '--list']))}
+na = json.load(open(os.path.join(here, 'tools', 'not_applicable.json')))
 baseline = json.load(open('/root/.vp/BASELINE.json'))['cmd'] if os.path.exists('/root/.vp/BASELINE.json') else ''
 m = {
  "version": 1,
  "setup_cmd": "cd checker && GOFLAGS=-mod=vendor GOWORK=off GOTOOLCHAIN=local GOPROXY=off go build -o ../bin/verifcheck .",
- "notes": "Static analysis only (go/types + go/ssa over the current /repo tree, loaded through a throw-away harness module; nothing from /repo is executed). See DESIGN.md. Every check is level 'other': static structural necessary conditions; per-rule details in evidence/<id>.json.",
+ "notes": "Static analysis only (go/types + go/ssa over the current /repo tree, loaded through a throw-away harness module; nothing from /repo is executed). See DESIGN.md. Every check is level 'other': static structural necessary conditions of the property, decided for all executions of the code as written; per-rule details, instance counts and floors in evidence/<id>.json. Genuine defects found: known_findings.json.",
  "hooks": {
   "guard": "verif",
   "enable": "none needed: the checker reads the source as it is; no hook commits exist",
@@ -16,15 +17,15 @@ m = {
   "source_commits": [],
   "add_only": True
  },
- "engines": [{"name": "verifcheck", "path": "checker/", "serves_properties": sorted(claimed['checks'].keys()),
-              "kind_free_text": "repository-specific static analyser (Go; go/packages, go/types, go/ssa, dominators, must-lockset dataflow, table extraction)"}],
+ "engines": [{"name": "verifcheck", "path": "checker/", "serves_properties": sorted(reg.keys()),
+              "kind_free_text": "repository-specific static analyser (Go; go/packages, go/types, go/ssa, dominators, must-lockset dataflow, table extraction, coverage rules)"}],
  "checks": [],
  "not_applicable": []
 }
 for p in props:
     pid = p['id']
-    if pid in claimed['checks']:
-        c = claimed['checks'][pid]
+    if pid in reg:
+        r = reg[pid]
         m['checks'].append({
          "property_id": pid,
          "quick_cmd": "./bin/check %s quick" % pid,
@@ -32,11 +33,11 @@ for p in props:
          "evidence_file": "evidence/%s.json" % pid,
          "replay_cmd_template": "./bin/check --replay {path}",
          "engine": "verifcheck",
-         "level_claimed": {"category": "other", "text": c['text'], "design_ref": "DESIGN.md §4 " + pid},
-         "level_note": c['note'],
-         "technique": c['technique'],
+         "level_claimed": {"category": "other", "text": r['Explain'] + " NOT decided (not applicable to this technique family): " + r['NotDecided'], "design_ref": "DESIGN.md §4 " + pid},
+         "level_note": "Trusted base: go/types, go/ssa (x/tools v0.29.0) SSA construction and dominator tree, the frozen oracles/tables in checker/ (listed per rule in the evidence). Assumes: " + "; ".join(r['Assumes'] or []),
+         "technique": r['Technique'] or "static analysis (SSA dominance/gating, who-may-call, table extraction)",
         })
     else:
-        m['not_applicable'].append({"property_id": pid, "reason": claimed['not_applicable'].get(pid, "check not built yet in this round; see DESIGN.md §4 for the planned static rules")})
+        m['not_applicable'].append({"property_id": pid, "reason": na.get(pid, "check not built yet in this round; see DESIGN.md §4 for the planned static rules")})
 json.dump(m, open(os.path.join(here, 'MANIFEST.json'), 'w'), indent=1)
 print("claimed", len(m['checks']), "not_applicable", len(m['not_applicable']))
